@@ -8,6 +8,8 @@ One rewrite at a time, inside the named functions of a file, on a scratch copy:
   T4  if c: A else: B          ->  if not (c): B else: A       (plain if/else, no elif)
   T5  a == b                   ->  b == a                      (both sides free of calls)
   T6  range(n)                 ->  range(0, n)
+  T7  x.T                      ->  np.transpose(x)
+  T8  np.dot(a, b)             ->  (a @ b)                      (the same for the 1-D / 2-D operands of this code base)
 The quick checks of the given properties run against the copy: exit 1 is a false alarm, exit 2 a lost anchor.
 
 usage: python3-vt tools/neutral_survey.py <file.py> <func[,func]|*> <Cnn[,Cmm]> [--jobs 16] [--max 200]
@@ -61,6 +63,10 @@ def rewrites(fn):
             yield "T5", node, ast.Compare(left=node.comparators[0], ops=[ast.Eq()], comparators=[node.left])
         if isinstance(node, ast.Call) and isinstance(node.func, ast.Name) and node.func.id == "range" and len(node.args) == 1 and not node.keywords:
             yield "T6", node, ast.Call(func=node.func, args=[ast.Constant(value=0), node.args[0]], keywords=[])
+        if isinstance(node, ast.Attribute) and node.attr == "T" and isinstance(node.ctx, ast.Load):
+            yield "T7", node, ast.Call(func=ast.Attribute(value=ast.Name(id="np", ctx=ast.Load()), attr="transpose", ctx=ast.Load()), args=[node.value], keywords=[])
+        if isinstance(node, ast.Call) and ast.unparse(node.func) == "np.dot" and len(node.args) == 2 and not node.keywords:
+            yield "T8", node, ast.BinOp(left=node.args[0], op=ast.MatMult(), right=node.args[1])
 
 
 def apply(text, node, repl):
@@ -77,7 +83,7 @@ def apply(text, node, repl):
             new += [ind + x for x in ast.unparse(st).split("\n")]
         return "\n".join(lines[:l0] + new + lines[l1 + 1 :])
     ast.fix_missing_locations(repl)
-    seg = "(" + ast.unparse(repl) + ")" if isinstance(repl, ast.Compare) else ast.unparse(repl)
+    seg = "(" + ast.unparse(repl) + ")" if isinstance(repl, (ast.Compare, ast.BinOp)) else ast.unparse(repl)
     if l0 == l1:
         lines[l0] = lines[l0][: node.col_offset] + seg + lines[l0][node.end_col_offset :]
     else:
